@@ -1,2 +1,142 @@
--- line-protocol driver stub (TypeId); replaced when the model exists
-def main : IO Unit := IO.println "stub"
+/-
+Line-protocol driver over the TypeId model (C14).  One output line per input line.
+
+  U <i> <type expr>        → `<id hex> <render of universe[i]>`      | out-of-range
+  T <type expr>            → `<id hex>` of the parsed expression      | err:parse | err:type
+  N <hex bytes | ->        → `<id hex>` = from_unique_type_name(bytes)
+  C <ahi> <alo> <bhi> <blo>→ `<id hex>` = StableTypeID(ahi,alo).combine(StableTypeID(bhi,blo))
+  Q <khi> <klo> <type expr>→ `<sti.low> <sti.high> <hash.low> <hash.high> <stable_type_id() hex>` of
+                              QueryID::new::<T>(Compact128(klo, khi))
+  anything else            → bad-op
+
+type expr (tokens separated by one blank):  key | #n | ( key expr … )
+-/
+import QbiceVerif.Model.TypeId
+import QbiceVerif.Gen.TypeIdTable
+
+open QbiceVerif.TypeId QbiceVerif.TypeId.Gen
+
+def hexVal (c : Char) : Option Nat :=
+  if '0' ≤ c ∧ c ≤ '9' then some (c.toNat - '0'.toNat)
+  else if 'a' ≤ c ∧ c ≤ 'f' then some (c.toNat - 'a'.toNat + 10)
+  else none
+
+def parseHex (s : String) : Option Nat :=
+  if s.isEmpty then none else
+  s.toList.foldl (fun acc c => match acc, hexVal c with
+    | some a, some d => some (a * 16 + d)
+    | _, _ => none) (some 0)
+
+def parseHexBytes (s : String) : Option (List Nat) :=
+  if s == "-" then some [] else
+  let rec go : List Char → Option (List Nat)
+    | [] => some []
+    | [_] => none
+    | a :: b :: r => match hexVal a, hexVal b, go r with
+      | some x, some y, some t => some ((x * 16 + y) :: t)
+      | _, _, _ => none
+  go s.toList
+
+def keyIndex (tbl : List Ctor) (k : String) : Option Nat :=
+  let rec go : List Ctor → Nat → Option Nat
+    | [], _ => none
+    | c :: r, n => if c.key == k then some n else go r (n + 1)
+  go tbl 0
+
+mutual
+def parseTy (tbl : List Ctor) : Nat → List String → Option (Ty × List String)
+  | 0, _ => none
+  | _ + 1, [] => none
+  | f + 1, tok :: rest =>
+    if tok == "(" then
+      match rest with
+      | k :: rest' =>
+        match keyIndex tbl k, parseArgs tbl f rest' with
+        | some c, some (args, rest'') =>
+          match args with
+          | .nil => none              -- `( key )` is not canonical
+          | _ => some (.con c args, rest'')
+        | _, _ => none
+      | [] => none
+    else if tok == ")" then none
+    else
+      match tok.toList with
+      | '#' :: ds => match (String.ofList ds).toNat? with
+        | some n => some (.lit n, rest)
+        | none => none
+      | _ => match keyIndex tbl tok with
+        | some c => some (.con c .nil, rest)
+        | none => none
+def parseArgs (tbl : List Ctor) : Nat → List String → Option (TyList × List String)
+  | 0, _ => none
+  | _ + 1, [] => none
+  | f + 1, tok :: rest =>
+    if tok == ")" then some (.nil, rest)
+    else match parseTy tbl f (tok :: rest) with
+      | some (t, r) => match parseArgs tbl f r with
+        | some (ts, r') => some (.cons t ts, r')
+        | none => none
+      | none => none
+end
+
+def parseWhole (toks : List String) : Option Ty :=
+  match parseTy ctorTable (toks.length + 1) toks with
+  | some (t, []) => some t
+  | _ => none
+
+def hex16 (n : Nat) : String := hexFixed 16 n
+
+def answer (uni : Array Ty) (line : String) : String :=
+  match line.splitOn " " with
+  | "U" :: i :: _ =>
+    match i.toNat? with
+    | some n =>
+      match uni[n]? with
+      | some t =>
+        match typeId? ctorTable t with
+        | some id => Id.hex id ++ " " ++ t.render ctorTable
+        | none => "err:type " ++ t.render ctorTable
+      | none => "out-of-range"
+    | none => "bad-op"
+  | "T" :: toks =>
+    match parseWhole toks with
+    | some t => match typeId? ctorTable t with
+      | some id => Id.hex id
+      | none => "err:type"
+    | none => "err:parse"
+  | ["N", h] =>
+    match parseHexBytes h with
+    | some bs => Id.hex (fromName bs)
+    | none => "bad-op"
+  | ["C", a, b, c, d] =>
+    match parseHex a, parseHex b, parseHex c, parseHex d with
+    | some a, some b, some c, some d =>
+      if a < M ∧ b < M ∧ c < M ∧ d < M then Id.hex (combine (a, b) (c, d)) else "bad-op"
+    | _, _, _, _ => "bad-op"
+  | "Q" :: khi :: klo :: toks =>
+    match parseHex khi, parseHex klo, parseWhole toks with
+    | some khi, some klo, some t =>
+      if khi < M ∧ klo < M then
+        match typeId? ctorTable t with
+        | some id =>
+          let q := QueryId.new id (klo, khi)
+          hex16 q.stableTypeId.1 ++ " " ++ hex16 q.stableTypeId.2 ++ " " ++ hex16 q.hash128.1 ++ " " ++
+            hex16 q.hash128.2 ++ " " ++ Id.hex q.typeId
+        | none => "err:type"
+      else "bad-op"
+    | _, _, none => "err:parse"
+    | _, _, _ => "bad-op"
+  | _ => "bad-op"
+
+partial def loop (uni : Array Ty) (stdin stdout : IO.FS.Stream) : IO Unit := do
+  let line ← stdin.getLine
+  if line.isEmpty then return
+  let l := if line.endsWith "\n" then (line.dropEnd 1).toString else line
+  stdout.putStrLn (answer uni l)
+  loop uni stdin stdout
+
+def main : IO Unit := do
+  let stdin ← IO.getStdin
+  let stdout ← IO.getStdout
+  loop typeUniverse.toArray stdin stdout
+  stdout.flush
